@@ -3,6 +3,8 @@ from specs import options
 
 LEVEL = 'exploration'
 UNITS = options.units('C19')
+from specs import families as _families
+UNITS = _families.with_families('C19', UNITS)
 BOUNDED = [
     {'name': 'C19.main.precedence', 'script': 'bounded/c19_main.py', 'timeout': 900,
      'bound': 'real main() with _cmd_handler replaced by a recorder: 9 options (concurrent, quiet, cache-directory, password, repository, '
